@@ -87,6 +87,13 @@ def generated(ctx, rng, thorough):
             if not ctx.next_case():
                 continue
             ctx.count("cases")
+            if rng.random() < 0.5:
+                # objects of the root type at arbitrary positions of the object table (an exporter that leaves their
+                # type implicit would hand them the type of whatever follows)
+                objs = list(w.objects.items())
+                for zi in range(rng.randint(1, 2)):
+                    objs.insert(rng.randrange(len(objs) + 1), (f"zz{zi}", "object"))
+                w.objects = dict(objs)
             atoms, fluents, goal = c05.gen_problem(rng, w)
             name = rng.choice(["prob", "p-01", "pfile_7"])
             items = gen.W.typed_items(list(w.objects.items()), "single")
